@@ -73,6 +73,8 @@ def gen_event(R, items):
         if R.random() < 0.03:
             ev["big"] = "x" * 70000          # a message larger than 64 KiB
         return {"kind": "upd", "item": it, "snap": R.choice([True, False]), "ev": ev if R.random() < 0.9 else None}
+    if k < 0.68:
+        return {"kind": "fal", "item": it, "msg": R.choice(["feed down", "boom|x y", "é€"])}
     return {"kind": R.choice(["eos", "cls"]), "item": it}
 
 
@@ -144,6 +146,8 @@ def run_real(scn, choose):
         sched.event("lsn-call", me.name, ev)
         if ev["kind"] == "upd":
             listener.update(ev["item"], ev["ev"], ev["snap"])
+        elif ev["kind"] == "fal":
+            listener.failure(RuntimeError(ev["msg"]))
         elif ev["kind"] == "eos":
             listener.end_of_snapshot(ev["item"])
         else:
@@ -347,7 +351,9 @@ def driver_lines(run):
             else:
                 o = "mlock"
         elif kind == "put":
-            if tid in lsn_pending and lsn_pending[tid].get("stage") == "read":
+            if tid in lsn_pending and lsn_pending[tid].get("kind") == "fal":
+                o = "fput " + C.hx(lsn_pending[tid]["msg"])
+            elif tid in lsn_pending and lsn_pending[tid].get("stage") == "read":
                 o = "lput " + C.hx(lsn_pending[tid]["item"])
                 lsn_pending[tid]["stage"] = "put"
             else:
@@ -593,6 +599,8 @@ def oracle_c03(run, A, V):
         if c["m"] == "sub":
             sub_windows.setdefault(c["item"], []).append(c)
     for l in A.lsn:
+        if l["ev"]["kind"] == "fal":
+            continue                      # a failure notification is not an item event
         item, t = l["ev"]["item"], l["t"]
         got = None
         if l["line"] is not None:
@@ -700,7 +708,7 @@ def oracle_c19(run, A, V):
             if mgr is not None:
                 V("item-retained-after-unsubscribe", "item %s still has bookkeeping after its last request (USB %s) was processed: queued=%s code=%s" % (item, last, mgr._queued, mgr._code))
             for l in A.lsn:
-                if l["probe"] and l["ev"]["item"] == item and l["line"] is not None:
+                if l["probe"] and l["ev"]["kind"] != "fal" and l["ev"]["item"] == item and l["line"] is not None:
                     V("probe-event-not-dropped", "event for unsubscribed item %s forwarded after quiescence" % item)
         else:
             tk = A.task.get(last)
